@@ -245,6 +245,17 @@ pub fn gen_world(seed: u64, idx: u64, s: &dyn SuiteOps, shared_tapes: bool, samp
         adv.push(Op::LoginFinish { out, st: Ref::mem(*cst), pw: pw.clone().into(), resp: Ref::mem(msg), ctx: ctx.clone().map(Into::into), ids: cids.clone(), ksf: ksf.clone() });
         adv.push(Op::ServerFinish { st: Ref::mem(st), fin: Ref::mem(out) });
     }
+    // (e) a whole response followed by the first bytes / the whole of another one, delivered to
+    // the client it was made for (seeded change R8C07-A: a decoder that ignores what follows
+    // the server MAC lets a client complete on a response no server session produced)
+    for extra in [1usize, 32, usize::MAX] {
+        let (a, bb) = (g.below(sessions.len()), g.below(sessions.len()));
+        let (cst, _, pw, cids) = &clients[(a / (records.len() * 2)).min(clients.len() - 1)];
+        let out = b.id();
+        let resp = Ref::Splice { kind: Kind::CredResp, parts: vec![whole(sessions[a].1), Part { id: sessions[bb].1, from: 0, to: extra }] };
+        adv.push(Op::LoginFinish { out, st: Ref::mem(*cst), pw: pw.clone().into(), resp, ctx: ctx.clone().map(Into::into), ids: cids.clone(), ksf: ksf.clone() });
+        adv.push(Op::ServerFinish { st: Ref::mem(sessions[a].0), fin: Ref::mem(out) });
+    }
     let n_adv = adv.len();
     let mut g2 = Gen::new(seed, &format!("sched/c07/{}/{}", s.name(), idx));
     for o in topo_shuffle(&mut g2, adv) {
